@@ -60,6 +60,23 @@ def systematic(tier: str) -> list[dict]:
     for p in P.fam_nan():
         p["outs"] = {("out0" if k == "out" else k): v for k, v in p["outs"].items()}
         progs.append(p)
+    # how scalar constants are rendered in C (never thinned out).  Left out: floor
+    # division / remainder with a floating-point operand (loopy's C target refuses:
+    # "remainder and floordiv for floating-point types") and a complex scalar raised to
+    # an integer array (the harness' C99 target lacks loopy's complex pow preamble).
+    def is_float(sc: dict) -> bool:
+        return sc.get("py") in ("float", "complex") or sc.get("np", "i")[0] in "fc"
+    for p in P.fam_scalars():
+        c = p["calls"][0]
+        sc = c["a"] if isinstance(c.get("a"), dict) else c.get("b")
+        arr_float = p["inputs"][0]["dtype"][0] == "f"
+        if c["op"] in ("floordiv", "mod") and (arr_float or is_float(sc)):
+            continue
+        if c["op"] == "pow" and (sc.get("py") == "complex" or sc.get("np", "")[:1] == "c") \
+                and not arr_float:
+            continue
+        p["outs"] = {("out0" if k == "out" else k): v for k, v in p["outs"].items()}
+        progs.append(p)
     return progs
 
 
@@ -309,6 +326,11 @@ def main(tier: str, only: list[dict] | None = None) -> int:
                                "has_zeros_like": any(c["op"] in ("zeros_like", "ones_like")
                                                      for c in by_id[r["id"]]["calls"]),
                                "nan_into_minmax_reduction": bool(pr.get("nan_minmax")),
+                               "bool_scalar_in_comparison": any(
+                                   c["op"] in ("lt", "le", "gt", "ge", "eq", "ne") and any(
+                                       isinstance(c.get(k), dict) and (
+                                           c[k].get("py") == "bool" or c[k].get("np") == "b1")
+                                       for k in "ab") for c in by_id[r["id"]]["calls"]),
                                "what": pr["what"][:80]})
     check_kernels(run, kernels, by_id)
     run.coverage.update({
